@@ -416,6 +416,11 @@ func (w *fatalW) Close() error {
 	return w.dw.Close()
 }
 
+type noCloseLW struct{}
+
+func (noCloseLW) Write(p []byte) (int, error)                       { return len(p), nil }
+func (noCloseLW) WriteLevel(l zerolog.Level, p []byte) (int, error) { return len(p), nil }
+
 type fatalSink struct {
 	line func(ev)
 }
@@ -449,11 +454,16 @@ func fatalChild(kind, mode, path string) {
 	dw := diode.NewWriter(&fatalSink{line}, 64, interval, func(n int) { line(ev{"a": "Alert", "n": n, "async": false}) })
 	w := &fatalW{dw: dw, line: line, entered: make(chan struct{})}
 	lg := zerolog.New(w)
+	if kind == "fan" {
+		// the diode writer is one destination of a fan-out, behind a level-aware destination that has no Close method: Fatal
+		// closes the fan-out, which closes every destination that can be closed
+		lg = zerolog.New(zerolog.MultiLevelWriter(noCloseLW{}, w))
+	}
 	for k := 1; k <= 10; k++ {
 		lg.Info().Int("m", k).Msg("")
 	}
 	switch kind {
-	case "one":
+	case "one", "fan":
 		lg.Fatal().Int("m", 99).Msg("")
 	case "two":
 		go func() { lg.Fatal().Int("m", 99).Msg("") }()
